@@ -13,8 +13,8 @@
    resolutions, dropped requests, polls, abort, drop of the command): no bound on the number of
    simultaneously outstanding requests, equal operations are indistinguishable to the model anyway.       *)
 From Coq Require Import List Arith Bool ZArith NArith.
-From Crux Require Import Base.Res Bridge.Slab Bridge.Bridge Bridge.Resolve Bridge.ResolveProofs
-                         Bridge.Arity Bridge.ArityProofs.
+From Crux Require Import Base.Res Bridge.Slab Bridge.SlabProofs Bridge.Bridge Bridge.Resolve Bridge.ResolveProofs
+                         Bridge.Arity Bridge.ArityProofs Bridge.Coherence.
 Import ListNotations.
 
 (* Invariant at every reachable state: (1) every callback points to the live sender of a channel whose
@@ -115,6 +115,26 @@ Theorem C02_serialized_undecodable : forall r chs,
   | RMany c => (SMany c, chs, Err E_DeserializeOutput)
   end.
 Proof. exact serialized_undecodable. Qed.
+
+(* The registry-level model of the serialized path used for C09/C13 (Bridge.resume, abstract core) and the
+   heap-level model above answer every response identically: the result is a function of the entry's arity,
+   of whether the body decodes, and of whether the consumer is alive (core_call's answer there, the
+   channel's receiver here). *)
+Theorem C02_models_agree_heap : forall k c chs ch (body : option N),
+  nth_error chs c = Some ch ->
+  snd (sresolve_step (deserializing (closure_for k c)) chs body) =
+  response_code k (match body with Some _ => true | None => false end) (ch_rx ch).
+Proof. exact heap_response_code. Qed.
+
+Theorem C02_models_agree_bridge : forall (cstate op value handle B : Type)
+  (core_call : cstate -> handle -> value -> cstate * bool) (core_drop : cstate -> handle -> cstate)
+  (dec_out : op -> list B -> option (value * list B)) (b : bstate cstate op handle) id data e b' r,
+  wf (b_reg b) -> slab_get (b_reg b) id = Some e ->
+  resume cstate op value handle B core_call core_drop dec_out b id data = (b', r) ->
+  r = response_code (r_kind e)
+        (match dec_out (r_op e) data with Some _ => true | None => false end)
+        (match dec_out (r_op e) data with Some (v, _) => snd (core_call (b_core b) (r_h e) v) | None => true end).
+Proof. exact bridge_response_code. Qed.
 
 (* The trace predicate evaluated on the implementation's observations holds of the model's own trace. *)
 Theorem C02_ok_holds_of_model : forall auto legacy steps,
